@@ -47,7 +47,8 @@ def main(tier: str) -> int:
         tasks = [(i, on) for on in optnames for i in range(len(types))]
         py_common.generate(d, d / "dsdl" / "vt")
         py_common.TYPES[:] = types
-        tasks += [("py", "des", i, L) for i in range(len(types)) for L in cc.des_lengths(types[i], tier)]
+        # (Python, thorough: the array of delimited composites with capacity 2 costs minutes per length; it keeps the representative lengths)
+        tasks += [("py", "des", i, L) for i in range(len(types)) for L in cc.des_lengths(types[i], "quick" if types[i].short_name == "C_arrd" else tier)]
         for res in common.pmap(_work, tasks):
             for ti, on, what, lg, tu, wall in res:
                 cc.record(rep, types[ti], on, what, lg, tu, wall, replayer=py_common.replayer(types[ti]) if on == "py" else None)
